@@ -1,21 +1,68 @@
 //! C18 — descriptor parsers/printers, name predicates, inner-class split/join.
 use fbh::gal::*;
 use fbh::prng::Rng;
-use fbh::report::{guarded, Report};
+use fbh::report::{crumb, guarded, Report};
 use fbh::Ctx;
-use duke::tree::class::{ArrClassName, ArrClassNameSlice, ClassName, ClassNameSlice, ObjClassName, ObjClassNameSlice};
-use duke::tree::descriptor::{ArrayType, ParsedFieldDescriptor, ParsedMethodDescriptor, ParsedReturnDescriptor, ReturnDescriptorSlice, Type};
-use duke::tree::field::{FieldDescriptorSlice, FieldName, FieldNameSlice};
-use duke::tree::method::code::{LocalVariableName, LocalVariableNameSlice};
-use duke::tree::method::{MethodDescriptorSlice, MethodName, MethodNameSlice, ParameterName, ParameterNameSlice};
+use duke::tree::class::{ArrClassName, ArrClassNameSlice, ClassAccess, ClassFile, ClassName, ClassNameSlice, ClassSignature, ClassSignatureSlice, ObjClassName, ObjClassNameSlice};
+use duke::tree::descriptor::{ArrayType, ParsedFieldDescriptor, ParsedMethodDescriptor, ParsedReturnDescriptor, ReturnDescriptor, ReturnDescriptorSlice, Type};
+use duke::tree::field::{FieldDescriptor, FieldDescriptorSlice, FieldName, FieldNameSlice, FieldSignature, FieldSignatureSlice};
+use duke::tree::method::code::{Code, Instruction, InstructionListEntry, LocalVariableName, LocalVariableNameSlice};
+use duke::tree::method::{Method, MethodAccess, MethodDescriptor, MethodDescriptorSlice, MethodName, MethodNameSlice, MethodRef, MethodSignature, MethodSignatureSlice, ParameterName, ParameterNameSlice};
+use duke::tree::module::{ModuleName, ModuleNameSlice, PackageName, PackageNameSlice};
+use duke::tree::record::{RecordName, RecordNameSlice};
+use duke::tree::version::Version;
 use java_string::{JavaStr, JavaString};
+use std::borrow::Borrow;
+use std::hash::{Hash, Hasher};
 
 pub const ALPHABET: &str = "BILV[();/.a$<>";
+/// thorough tier, length 7 only
+pub const ALPHABET_LEN7: &str = "BLV[();/a";
 /// second sweep: characters of 2, 3 and 4 UTF-8 bytes, three kinds of white space (space, TAB, EM SPACE), and what gives
 /// names, descriptors and inner-class names their structure
 pub const ALPHABET2: &str = "\u{fc}\u{65e5}\u{10400} \t\u{2003}$/L;[I";
 
 // ---------- Gallina printers for the tree types ----------
+/// a string as a Gallina term; a unit of up to 24 characters repeated so that it covers 16 or more characters is written
+/// `rp c n` / `rps unit n` (255 `[`, 127 `D`, 254 x `Ljava/lang/Object;`, …)
+fn gs(s: &[u32]) -> String {
+	let mut parts: Vec<String> = vec![];
+	let mut lit: Vec<u32> = vec![];
+	let mut i = 0;
+	while i < s.len() {
+		let mut best = (0usize, 0usize); // (period, repeats)
+		for p in 1..=24.min(s.len() - i) {
+			let mut k = 1;
+			while i + (k + 1) * p <= s.len() && s[i + k * p..i + (k + 1) * p] == s[i..i + p] { k += 1; }
+			if k >= 2 && k * p >= 16 && k * p > best.0 * best.1 { best = (p, k); }
+		}
+		if best.1 > 0 {
+			if !lit.is_empty() { parts.push(gstr(&lit)); lit.clear(); }
+			let (p, k) = best;
+			parts.push(if p == 1 { format!("rp {} {k}", s[i]) } else { format!("rps {} {k}", gstr(&s[i..i + p])) });
+			i += p * k;
+		} else { lit.push(s[i]); i += 1; }
+	}
+	if !lit.is_empty() || parts.is_empty() { parts.push(gstr(&lit)); }
+	if parts.len() == 1 && parts[0].starts_with('[') { parts.pop().unwrap() } else { format!("({})", parts.join(" ++ ")) }
+}
+/// a list of printed terms; 4 or more equal consecutive items are written `rpt x n`
+fn glist_rle(items: Vec<String>) -> String {
+	let mut parts: Vec<String> = vec![];
+	let mut lit: Vec<String> = vec![];
+	let mut i = 0;
+	while i < items.len() {
+		let mut j = i;
+		while j < items.len() && items[j] == items[i] { j += 1; }
+		if j - i >= 4 {
+			if !lit.is_empty() { parts.push(glist(lit.drain(..))); }
+			parts.push(format!("rpt {} {}", items[i], j - i));
+		} else { lit.extend(items[i..j].iter().cloned()); }
+		i = j;
+	}
+	if !lit.is_empty() || parts.is_empty() { parts.push(glist(lit.drain(..))); }
+	if parts.len() == 1 && parts[0].starts_with('[') { parts.pop().unwrap() } else { format!("({})", parts.join(" ++ ")) }
+}
 fn g_aty(a: &ArrayType) -> String {
 	match a {
 		ArrayType::B => "AB".into(), ArrayType::C => "AC".into(), ArrayType::D => "AD".into(), ArrayType::F => "AF".into(),
@@ -32,7 +79,7 @@ pub fn g_ty(t: &Type) -> String {
 	}
 }
 fn g_method(m: &ParsedMethodDescriptor) -> String {
-	gpair(glist(m.parameter_descriptors.iter().map(g_ty)), gopt(m.return_descriptor.as_ref().map(g_ty)))
+	gpair(glist_rle(m.parameter_descriptors.iter().map(g_ty).collect()), gopt(m.return_descriptor.as_ref().map(g_ty)))
 }
 
 // ---------- implementation entry points (all through the unchecked slice constructors,
@@ -50,29 +97,151 @@ pub fn impl_return(s: &JavaStr) -> Result<Option<ParsedReturnDescriptor>, String
 	let d = unsafe { ReturnDescriptorSlice::from_inner_unchecked(s) };
 	guarded(|| d.parse().ok())
 }
-pub const NAME_KINDS: [&str; 7] = ["ClassName", "ArrClassName", "ObjClassName", "FieldName", "MethodName", "ParameterName", "LocalVariableName"];
+/// the checked newtypes of make_string_str_like!: (kind number used in the Coq cases, type name).  Kinds 0..6 are the name
+/// types of the property; 11..19 are the newtypes whose check_valid is `Ok(())` in the source (descriptors, signatures, …)
+pub const KINDS: [(usize, &str); 16] = [(0, "ClassName"), (1, "ArrClassName"), (2, "ObjClassName"), (3, "FieldName"), (4, "MethodName"),
+	(5, "ParameterName"), (6, "LocalVariableName"), (11, "FieldDescriptor"), (12, "MethodDescriptor"), (13, "ReturnDescriptor"),
+	(14, "ClassSignature"), (15, "FieldSignature"), (16, "MethodSignature"), (17, "RecordName"), (18, "ModuleName"), (19, "PackageName")];
+pub fn kind_name(kind: usize) -> &'static str { KINDS.iter().find(|(k, _)| *k == kind).map(|(_, n)| *n).unwrap_or("?") }
+
+/// dispatch on the kind number: `$body` is expanded with `$O` = owned type, `$S` = slice type
+macro_rules! with_kind { ($kind:expr, $O:ident, $S:ident, $body:expr) => { match $kind {
+	0 => { type $O = ClassName; type $S = ClassNameSlice; $body }, 1 => { type $O = ArrClassName; type $S = ArrClassNameSlice; $body },
+	2 => { type $O = ObjClassName; type $S = ObjClassNameSlice; $body }, 3 => { type $O = FieldName; type $S = FieldNameSlice; $body },
+	4 => { type $O = MethodName; type $S = MethodNameSlice; $body }, 5 => { type $O = ParameterName; type $S = ParameterNameSlice; $body },
+	6 => { type $O = LocalVariableName; type $S = LocalVariableNameSlice; $body },
+	11 => { type $O = FieldDescriptor; type $S = FieldDescriptorSlice; $body }, 12 => { type $O = MethodDescriptor; type $S = MethodDescriptorSlice; $body },
+	13 => { type $O = ReturnDescriptor; type $S = ReturnDescriptorSlice; $body }, 14 => { type $O = ClassSignature; type $S = ClassSignatureSlice; $body },
+	15 => { type $O = FieldSignature; type $S = FieldSignatureSlice; $body }, 16 => { type $O = MethodSignature; type $S = MethodSignatureSlice; $body },
+	17 => { type $O = RecordName; type $S = RecordNameSlice; $body }, 18 => { type $O = ModuleName; type $S = ModuleNameSlice; $body },
+	_ => { type $O = PackageName; type $S = PackageNameSlice; $body },
+} } }
+
 pub fn impl_name(kind: usize, s: &JavaStr) -> Result<bool, String> {
-	guarded(|| match kind {
-		0 => ClassName::is_valid(s), 1 => ArrClassName::is_valid(s), 2 => ObjClassName::is_valid(s),
-		3 => FieldName::is_valid(s), 4 => MethodName::is_valid(s), 5 => ParameterName::is_valid(s),
-		_ => LocalVariableName::is_valid(s),
-	})
+	guarded(|| with_kind!(kind, O, S, { let _ = std::marker::PhantomData::<S>; O::is_valid(s) }))
 }
 /// the three TryFrom impls make_string_str_like! generates (&Slice from &JavaStr, Owned from JavaString, Owned from &JavaStr):
 /// for each, whether it succeeded and whether the value carries the input unchanged
 fn impl_try_from(kind: usize, s: &JavaStr) -> Result<[(bool, bool); 3], String> {
-	macro_rules! three { ($owned:ty, $slice:ty) => { {
-		let a = <&$slice>::try_from(s).map(|x| x.as_inner() == s);
-		let b = <$owned>::try_from(s.to_owned()).map(|x| x.as_inner() == s);
-		let c = <$owned as TryFrom<&JavaStr>>::try_from(s).map(|x| x.as_inner() == s);
+	guarded(|| with_kind!(kind, O, S, {
+		let a = <&S>::try_from(s).map(|x| x.as_inner() == s);
+		let b = O::try_from(s.to_owned()).map(|x| x.as_inner() == s);
+		let c = <O as TryFrom<&JavaStr>>::try_from(s).map(|x| x.as_inner() == s);
 		[(a.is_ok(), a.unwrap_or(true)), (b.is_ok(), b.unwrap_or(true)), (c.is_ok(), c.unwrap_or(true))]
-	} } }
-	guarded(|| match kind {
-		0 => three!(ClassName, ClassNameSlice), 1 => three!(ArrClassName, ArrClassNameSlice), 2 => three!(ObjClassName, ObjClassNameSlice),
-		3 => three!(FieldName, FieldNameSlice), 4 => three!(MethodName, MethodNameSlice), 5 => three!(ParameterName, ParameterNameSlice),
-		_ => three!(LocalVariableName, LocalVariableNameSlice),
+	}))
+}
+fn hash_of<T: Hash + ?Sized>(x: &T) -> u64 { let mut h = std::collections::hash_map::DefaultHasher::new(); x.hash(&mut h); h.finish() }
+/// the rest of what make_string_str_like! generates (as_slice, into_inner, AsRef, Borrow, Deref, ToOwned, the From impls back to the
+/// inner string, Hash, the four cross PartialEq impls, Ord): each must behave as the wrapped string does.  Returns what does not.
+fn impl_newtype_api(kind: usize, s: &JavaStr, other: &JavaStr) -> Result<Vec<&'static str>, String> {
+	guarded(|| with_kind!(kind, O, S, {
+		let mut bad = vec![];
+		// SAFETY: the wrappers are only compared, hashed and unwrapped again
+		let owned: O = unsafe { O::from_inner_unchecked(s.to_owned()) };
+		let slice: &S = unsafe { S::from_inner_unchecked(s) };
+		let o2: O = unsafe { O::from_inner_unchecked(other.to_owned()) };
+		let s2: &S = unsafe { S::from_inner_unchecked(other) };
+		let same = s == other;
+		if owned.as_slice() != slice { bad.push("as_slice"); }
+		if owned.as_slice().as_inner() != s || slice.as_inner() != s { bad.push("as_inner"); }
+		if <S as AsRef<JavaStr>>::as_ref(slice) != s { bad.push("AsRef<JavaStr> for Slice"); }
+		if <O as AsRef<JavaStr>>::as_ref(&owned) != s { bad.push("AsRef<JavaStr> for Owned"); }
+		if <O as Borrow<S>>::borrow(&owned) != slice { bad.push("Borrow<Slice> for Owned"); }
+		if &*owned != slice { bad.push("Deref"); }
+		if slice.to_owned() != owned { bad.push("ToOwned"); }
+		if owned.clone().into_inner() != s { bad.push("into_inner"); }
+		if JavaString::from(owned.clone()) != s { bad.push("From<Owned> for JavaString"); }
+		if <&JavaStr>::from(slice) != s { bad.push("From<&Slice> for &JavaStr"); }
+		if hash_of(&owned) != hash_of(slice) { bad.push("Hash of Owned differs from Hash of Slice"); }
+		if (hash_of(&owned) == hash_of(&o2)) != same && same { bad.push("Hash"); }
+		if (owned == o2) != same { bad.push("PartialEq Owned/Owned"); }
+		if (slice == s2) != same { bad.push("PartialEq Slice/Slice"); }
+		if (owned == *s2) != same { bad.push("PartialEq<Slice> for Owned"); }
+		if (*s2 == owned) != same { bad.push("PartialEq<Owned> for Slice"); }
+		if (owned == s2) != same { bad.push("PartialEq<&Slice> for Owned"); }
+		if (s2 == owned) != same { bad.push("PartialEq<Owned> for &Slice"); }
+		if owned.cmp(&o2) != s.cmp(other) || slice.cmp(s2) != s.cmp(other) { bad.push("Ord"); }
+		bad
+	}))
+}
+/// Display (make_display!) of the owned and the slice type: Some(text) or None for fmt::Error; None when the kind has no Display
+fn impl_display(kind: usize, s: &JavaStr) -> Option<Result<(Option<String>, Option<String>), String>> {
+	use std::fmt::Write;
+	macro_rules! disp { ($O:ty, $S:ty) => { Some(guarded(|| {
+		let owned: $O = unsafe { <$O>::from_inner_unchecked(s.to_owned()) };
+		let slice: &$S = unsafe { <$S>::from_inner_unchecked(s) };
+		let mut a = String::new(); let ra = write!(a, "{}", owned).ok().map(|_| a);
+		let mut b = String::new(); let rb = write!(b, "{}", slice).ok().map(|_| b);
+		(ra, rb)
+	})) } }
+	match kind {
+		0 => disp!(ClassName, ClassNameSlice), 1 => disp!(ArrClassName, ArrClassNameSlice), 2 => disp!(ObjClassName, ObjClassNameSlice),
+		3 => disp!(FieldName, FieldNameSlice), 4 => disp!(MethodName, MethodNameSlice), 5 => disp!(ParameterName, ParameterNameSlice),
+		6 => disp!(LocalVariableName, LocalVariableNameSlice), 11 => disp!(FieldDescriptor, FieldDescriptorSlice),
+		12 => disp!(MethodDescriptor, MethodDescriptorSlice), 17 => disp!(RecordName, RecordNameSlice), 18 => disp!(ModuleName, ModuleNameSlice),
+		_ => None,
+	}
+}
+
+/// `MethodDescriptorSlice::get_arguments_size` is pub(crate); its only caller is the class writer, which puts the result into the
+/// count operand of `invokeinterface`.  A one-method class `{ invokeinterface I.f:<s>; return }` is written and the operand read back
+/// from the bytes (the method's Code attribute ends the file: … code[6] exception_table_length attributes_count | class attributes_count).
+/// Ok(None) = the writer returned an error (nothing else in this class can make it fail).
+pub struct ArgsProbe { class: ClassFile }
+impl ArgsProbe {
+	pub fn new() -> ArgsProbe {
+		let obj = |t: &str| unsafe { ObjClassName::from_inner_unchecked(JavaString::from(t)) };
+		let mut class = ClassFile::new(Version::V1_8, ClassAccess::default(), obj("A"), Some(obj("java/lang/Object")), vec![]);
+		let mut m = Method::new(MethodAccess::from(0x0009u16), unsafe { MethodName::from_inner_unchecked(JavaString::from("m")) },
+			unsafe { MethodDescriptor::from_inner_unchecked(JavaString::from("()V")) });
+		m.code = Some(Code { max_stack: Some(0), max_locals: Some(0), instructions: vec![], ..Code::default() });
+		class.methods.push(m);
+		ArgsProbe { class }
+	}
+	pub fn args_size(&self, s: &JavaStr) -> Result<Option<u8>, String> {
+		let mut class = self.class.clone();
+		let mref = MethodRef { class: unsafe { ClassName::from_inner_unchecked(JavaString::from("I")) },
+			name: unsafe { MethodName::from_inner_unchecked(JavaString::from("f")) },
+			desc: unsafe { MethodDescriptor::from_inner_unchecked(s.to_owned()) } };
+		class.methods[0].code.as_mut().unwrap().instructions = vec![
+			InstructionListEntry { label: None, frame: None, instruction: Instruction::InvokeInterface(mref) },
+			InstructionListEntry { label: None, frame: None, instruction: Instruction::Return },
+		];
+		let out = guarded(move || { let mut v = Vec::new(); duke::write_class(&mut v, &class).map(|_| v) })?;
+		match out {
+			Err(_) => Ok(None),
+			Ok(b) => {
+				let n = b.len();
+				if n < 16 || b[n - 12] != 0xb9 || b[n - 8] != 0 || b[n - 7] != 0xb1 || b[n - 16..n - 12] != [0, 0, 0, 6] || b[n - 6..] != [0u8; 6] {
+					return Err("harness: the written probe class does not end with the expected Code attribute".into());
+				}
+				Ok(Some(b[n - 9]))
+			}
+		}
+	}
+}
+
+/// ClassNameSlice::is_array / as_arr / as_obj / as_arr_and_obj and ClassName::into_arr / into_obj on the same (unchecked) string:
+/// (is_array, as_arr, as_obj) and whether the five views agree with each other
+fn impl_conv(s: &JavaStr) -> Result<(bool, Option<Vec<u32>>, Option<Vec<u32>>, bool), String> {
+	guarded(|| {
+		let c = unsafe { ClassNameSlice::from_inner_unchecked(s) };
+		let is_arr = c.is_array();
+		let a = c.as_arr().map(|x| cps(x.as_inner()));
+		let o = c.as_obj().map(|x| cps(x.as_inner()));
+		let both = match c.as_arr_and_obj() { Ok(x) => (Some(cps(x.as_inner())), None), Err(x) => (None, Some(cps(x.as_inner()))) };
+		let owned = unsafe { ClassName::from_inner_unchecked(s.to_owned()) };
+		let ia = owned.clone().into_arr().map(|x| cps(x.as_inner()));
+		let io = owned.into_obj().map(|x| cps(x.as_inner()));
+		let agree = both == (a.clone(), o.clone()) && ia == a && io == o;
+		(is_arr, a, o, agree)
 	})
 }
+fn impl_dimension(s: &JavaStr) -> Option<u8> {
+	let a = unsafe { ArrClassNameSlice::from_inner_unchecked(s) };
+	guarded(|| a.dimension()).ok()
+}
+
 fn impl_split(s: &JavaStr) -> Result<Option<(Vec<u32>, Vec<u32>)>, String> {
 	let n = unsafe { ObjClassNameSlice::from_inner_unchecked(s) };
 	guarded(|| n.split_inner_class_parent_and_name().map(|(p, i)| (cps(p.as_inner()), cps(i.as_inner()))))
@@ -138,7 +307,9 @@ fn o_name(kind: usize, s: &[u32]) -> bool {
 		1 => arr,
 		2 => s.first() != Some(&('[' as u32)) && o_class_name(s),
 		4 => s == cps_str("<init>") || s == cps_str("<clinit>") || (o_unq(s) && !s.contains(&('<' as u32)) && !s.contains(&('>' as u32))),
-		_ => o_unq(s),
+		3 | 5 | 6 => o_unq(s),
+		// descriptor, signature, record, module and package name types: unchecked in the source (check_valid is `Ok(())`, marked TODO)
+		_ => true,
 	}
 }
 fn o_split(s: &[u32]) -> Option<(Vec<u32>, Vec<u32>)> {
@@ -148,17 +319,33 @@ fn o_split(s: &[u32]) -> Option<(Vec<u32>, Vec<u32>)> {
 }
 
 // ---------- one string through everything ----------
-struct St<'a> { r: &'a mut Report, emit_cases: bool }
+struct St<'a> { r: &'a mut Report, probe: &'a ArgsProbe, emit_cases: bool,
+	/// also get_arguments_size (one class written per string)
+	args: bool,
+	/// also the conversions, Display, the rest of the generated newtype API and the unchecked newtypes
+	full: bool }
+/// what one string produced: a bit mask of what accepted it (bits 0..6 names, 7 field, 8 return, 9 method, 10 split) and the
+/// values of the function-valued entry points (for the value sweeps)
+#[derive(Default)]
+struct Out { mask: u32, args: Option<u8>, dim: Option<u8>, simple: Option<Vec<u32>>, split: Option<(Vec<u32>, Vec<u32>)> }
 
 fn vio(r: &mut Report, what: String, s: &[u32]) {
 	r.violation(what.clone(), format!("property C18\nwhat: {what}\ninput (text): {}\ninput (code points): {}\n", show(s), gstr(s)));
 }
 
-/// Returns a bit mask of what accepted the string (bits 0..6 names, 7 field, 8 return, 9 method, 10 split)
-fn through(st: &mut St, s: &[u32], stream: &str) -> u32 {
+fn through(st: &mut St, s: &[u32], stream: &str) -> Out {
 	let js = jstring(s);
 	let mut mask = 0u32;
+	let mut out = Out::default();
 	let r = &mut *st.r;
+	// the pieces of the one Coq case this string becomes (input printed once, every answer beside it)
+	let (mut c_field, mut c_ret, mut c_meth): (Option<String>, Option<String>, Option<String>) = (None, None, None);
+	let mut c_printed: Vec<bool> = vec![];
+	let mut c_names: Vec<String> = vec![];
+	let (mut c_split, mut c_simple) = ("None".to_string(), "None".to_string());
+	let (mut c_args, mut c_conv, mut c_disp): (Option<String>, Option<String>, Option<bool>) = (None, None, None);
+	// a loop that stops advancing or unbounded recursion in a parser cannot be caught by `guarded`: leave the input behind first
+	crumb_input(s);
 	// field
 	match impl_field(&js) {
 		Err(p) => vio(r, format!("FieldDescriptorSlice::parse panicked: {p}"), s),
@@ -172,11 +359,11 @@ fn through(st: &mut St, s: &[u32], stream: &str) -> u32 {
 					Err(p) => vio(r, format!("ParsedFieldDescriptor::write panicked: {p}"), s),
 					Ok(w) => {
 						if w != s { vio(r, format!("write(parse(s)) = {:?} differs from s", show(&w)), s); }
-						if st.emit_cases { r.case(stream, format!("CPrintF {} {}", g_ty(&g.0), gstr(&w))); }
+						c_printed.push(w == s);
 					}
 				}
 			}
-			if st.emit_cases { r.case(stream, format!("CField {} {}", gstr(s), gres(got.as_ref().map(|g| g_ty(&g.0))))); }
+			c_field = Some(gres(got.as_ref().map(|g| g_ty(&g.0))));
 		}
 	}
 	// return
@@ -190,10 +377,10 @@ fn through(st: &mut St, s: &[u32], stream: &str) -> u32 {
 				mask |= 1 << 8;
 				match guarded(|| cps(g.write().as_inner())) {
 					Err(p) => vio(r, format!("ParsedReturnDescriptor::write panicked: {p}"), s),
-					Ok(w) => if w != s { vio(r, format!("return write(parse(s)) = {:?} differs from s", show(&w)), s); }
+					Ok(w) => { if w != s { vio(r, format!("return write(parse(s)) = {:?} differs from s", show(&w)), s); } c_printed.push(w == s); }
 				}
 			}
-			if st.emit_cases { r.case(stream, format!("CReturn {} {}", gstr(s), gres(got.as_ref().map(|g| gopt(g.0.as_ref().map(g_ty)))))); }
+			c_ret = Some(gres(got.as_ref().map(|g| gopt(g.0.as_ref().map(g_ty)))));
 		}
 	}
 	// method
@@ -209,41 +396,60 @@ fn through(st: &mut St, s: &[u32], stream: &str) -> u32 {
 					Err(p) => vio(r, format!("ParsedMethodDescriptor::write panicked: {p}"), s),
 					Ok(w) => {
 						if w != s { vio(r, format!("method write(parse(s)) = {:?} differs from s", show(&w)), s); }
-						if st.emit_cases { r.case(stream, format!("CPrintM {} {}", g_method(g), gstr(&w))); }
+						c_printed.push(w == s);
 					}
 				}
 			}
-			if st.emit_cases { r.case(stream, format!("CMethod {} {}", gstr(s), gres(got.as_ref().map(g_method)))); }
+			c_meth = Some(gres(got.as_ref().map(g_method)));
 		}
 	}
-	// names
-	for k in 0..7 {
+	// names: is_valid against the documented set, the three checked constructors against is_valid
+	let n_kinds = if st.full { KINDS.len() } else { 7 };
+	// of the unchecked newtypes only one per string becomes a Coq case (they are all `true`)
+	let rot = 7 + (s.len() + s.first().copied().unwrap_or(0) as usize) % 9;
+	for (ki, &(k, kname)) in KINDS.iter().enumerate().take(n_kinds) {
 		match impl_name(k, &js) {
-			Err(p) => vio(r, format!("{}::is_valid panicked: {p}", NAME_KINDS[k]), s),
+			Err(p) => vio(r, format!("{kname}::is_valid panicked: {p}"), s),
 			Ok(b) => {
-				if b { mask |= 1 << k; }
-				if b != o_name(k, s) { vio(r, format!("{}::is_valid = {b}, documentation/JVMS says {}", NAME_KINDS[k], !b), s); }
-				if st.emit_cases { r.case(stream, format!("CName {k} {} {}", gstr(s), gbool(b))); }
+				if b && k < 7 { mask |= 1 << k; }
+				if b != o_name(k, s) { vio(r, format!("{kname}::is_valid = {b}, documentation/JVMS says {}", !b), s); }
+				if k < 7 || ki == rot { c_names.push(gpair(k.to_string(), gbool(b))); }
 				// the checked constructors agree with the predicate and keep the string
 				match impl_try_from(k, &js) {
-					Err(p) => vio(r, format!("{}: a TryFrom impl panicked: {p}", NAME_KINDS[k]), s),
+					Err(p) => vio(r, format!("{kname}: a TryFrom impl panicked: {p}"), s),
 					Ok(t) => for (i, (ok, same)) in t.iter().enumerate() {
 						let which = ["<&Slice>::try_from(&JavaStr)", "Owned::try_from(JavaString)", "Owned::try_from(&JavaStr)"][i];
-						if *ok != b { vio(r, format!("{} {which} is {} but is_valid = {b}", NAME_KINDS[k], if *ok { "Ok" } else { "Err" }), s); }
-						if !*same { vio(r, format!("{} {which} changed the string", NAME_KINDS[k]), s); }
+						if *ok != b { vio(r, format!("{kname} {which} is {} but is_valid = {b}", if *ok { "Ok" } else { "Err" }), s); }
+						if !*same { vio(r, format!("{kname} {which} changed the string", ), s); }
 					},
 				}
 			}
 		}
 	}
-	// split / join (only meaningful on object class names, which is what the slice type promises)
-	if o_name(2, s) {
+	let valid_class = o_name(0, s); let valid_arr = o_name(1, s); let valid_obj = o_name(2, s);
+	// split / join / simple name (only meaningful on object class names, which is what the slice type promises)
+	if valid_obj {
+		let n = unsafe { ObjClassNameSlice::from_inner_unchecked(&js) };
 		match impl_split(&js) {
 			Err(p) => vio(r, format!("split_inner_class_parent_and_name panicked: {p}"), s),
 			Ok(got) => {
 				if got != o_split(s) { vio(r, format!("split_inner_class_parent_and_name = {:?}, expected {:?}", got, o_split(s)), s); }
+				// get_inner_class_parent / get_inner_class_name are the two halves
+				match guarded(|| (n.get_inner_class_parent().map(|x| cps(x.as_inner())), n.get_inner_class_name().map(|x| cps(x.as_inner())))) {
+					Err(p) => vio(r, format!("get_inner_class_parent/name panicked: {p}"), s),
+					Ok((gp, gi)) => {
+						if (gp.clone(), gi.clone()) != (got.as_ref().map(|x| x.0.clone()), got.as_ref().map(|x| x.1.clone())) {
+							vio(r, format!("get_inner_class_parent = {:?}, get_inner_class_name = {:?}, but split_inner_class_parent_and_name = {:?}", gp, gi, got), s);
+						}
+						if st.emit_cases && s.len() <= 12 { r.case(stream, format!("CInner {} {} {}", gstr(s), gopt(gp.map(|x| gstr(&x))), gopt(gi.map(|x| gstr(&x))))); }
+					}
+				}
 				if let Some((p, i)) = &got {
 					mask |= 1 << 10;
+					// both halves are valid object class names again (the SAFETY comments of the function)
+					for (half, what) in [(p, "parent"), (i, "inner name")] {
+						if impl_name(2, &jstring(half)) != Ok(true) { vio(r, format!("the {what} {:?} returned by split_inner_class_parent_and_name is not a valid ObjClassName", show(half)), s); }
+					}
 					// join must give back s
 					let pj = jstring(p); let ij = jstring(i);
 					let joined = guarded(|| {
@@ -253,15 +459,146 @@ fn through(st: &mut St, s: &[u32], stream: &str) -> u32 {
 					});
 					match joined { Ok(j) if j == s => {}, other => vio(r, format!("from_inner_class(split(s)) = {:?}", other), s) }
 				}
-				if st.emit_cases {
-					r.case(stream, format!("CSplit {} {}", gstr(s), gopt(got.map(|(p, i)| gpair(gstr(&p), gstr(&i))))));
-					let n = unsafe { ObjClassNameSlice::from_inner_unchecked(&js) };
-					r.case(stream, format!("CSimple {} {}", gstr(s), gjstr(n.get_simple_name().as_inner())));
+				c_split = gopt(Some(gopt(got.clone().map(|(p, i)| gpair(gs(&p), gs(&i))))));
+				out.split = got;
+			}
+		}
+		match guarded(|| cps(n.get_simple_name().as_inner())) {
+			Err(p) => vio(r, format!("get_simple_name panicked: {p}"), s),
+			Ok(simple) => {
+				let want = s.rsplit(|&c| c == '/' as u32).next().unwrap_or(s).to_vec();
+				if simple != want { vio(r, format!("get_simple_name = {:?}, expected the text after the last `/`: {:?}", show(&simple), show(&want)), s); }
+				if impl_name(2, &jstring(&simple)) != Ok(true) { vio(r, format!("get_simple_name returned {:?}, which is not a valid ObjClassName", show(&simple)), s); }
+				c_simple = gopt(Some(gs(&simple)));
+				out.simple = Some(simple);
+			}
+		}
+		if st.full {
+			// as_class_name and From<ObjClassName> for ClassName keep the string and give a valid ClassName
+			let c = guarded(|| (cps(n.as_class_name().as_inner()), cps(ClassName::from(n.to_owned()).as_inner())));
+			if c != Ok((s.to_vec(), s.to_vec())) || !valid_class { vio(r, format!("ObjClassNameSlice::as_class_name / ClassName::from(ObjClassName) = {:?} on a valid object class name (ClassName valid: {valid_class})", c), s); }
+			match guarded(|| FieldDescriptor::from_obj_class(n).parse().ok().map(|d| o_of_ty(&d.0))) {
+				Ok(Some(OTy::Obj(x))) if x == s => {},
+				other => vio(r, format!("FieldDescriptor::from_obj_class(name).parse() = {:?}, expected the object type of that class", other), s),
+			}
+		}
+	}
+	// ArrClassNameSlice::dimension (on every string through the unchecked constructor; a panic is the answer `Err`)
+	out.dim = impl_dimension(&js);
+	if valid_arr {
+		let lead = s.iter().take_while(|&&c| c == '[' as u32).count();
+		if out.dim.map(|d| d as usize) != Some(lead) { vio(r, format!("ArrClassNameSlice::dimension = {:?} on a valid array class name with {lead} leading `[`", out.dim), s); }
+	}
+	// get_arguments_size through the class writer
+	if st.args {
+		match st.probe.args_size(&js) {
+			Err(p) => vio(r, format!("get_arguments_size (class writer, invokeinterface) panicked: {p}"), s),
+			Ok(got) => {
+				if let Some((ps, _)) = o_method(s) {
+					let n: u32 = 1 + ps.iter().map(|t| if matches!(t, OTy::Prim(c) if *c == 'D' as u32 || *c == 'J' as u32) { 2 } else { 1 }).sum::<u32>();
+					let want = if n <= 255 { Some(n as u8) } else { None };
+					if got != want { vio(r, format!("get_arguments_size = {:?} on a valid method descriptor whose arguments take {n} slots (with `this`); expected {:?} (an error above 255)", got, want), s); }
+				}
+				if got == Some(0) { vio(r, "get_arguments_size = 0 (the implicit `this` alone counts 1)".into(), s); }
+				c_args = Some(gres(got.map(|d| d.to_string())));
+				out.args = got;
+			}
+		}
+	}
+	if st.full {
+		// ClassName <-> ArrClassName / ObjClassName
+		match impl_conv(&js) {
+			Err(p) => vio(r, format!("ClassNameSlice::is_array/as_arr/as_obj/as_arr_and_obj or ClassName::into_arr/into_obj panicked: {p}"), s),
+			Ok((is_arr, a, o, agree)) => {
+				if !agree { vio(r, "as_arr_and_obj, as_arr/as_obj and into_arr/into_obj disagree with each other".into(), s); }
+				if valid_class {
+					let want_a = if valid_arr { Some(s.to_vec()) } else { None };
+					let want_o = if valid_obj { Some(s.to_vec()) } else { None };
+					if a != want_a || o != want_o || is_arr != valid_arr {
+						vio(r, format!("on a valid class name: is_array = {is_arr}, as_arr = {:?}, as_obj = {:?}; expected the array view exactly for array class names and the object view otherwise", a, o), s);
+					}
+				}
+				// the views hand the string itself back (checked here), so the case only says which views exist
+				for v in [&a, &o] { if let Some(x) = v { if x != s { vio(r, format!("as_arr/as_obj changed the string to {:?}", show(x)), s); } } }
+				c_conv = Some(format!("({}, {}, {})", gbool(is_arr), gbool(a.is_some()), gbool(o.is_some())));
+			}
+		}
+		if valid_arr {
+			let a = unsafe { ArrClassNameSlice::from_inner_unchecked(&js) };
+			let c = guarded(|| cps(ClassName::from(a.to_owned()).as_inner()));
+			if c != Ok(s.to_vec()) || !valid_class { vio(r, format!("ClassName::from(ArrClassName) = {:?} (ClassName valid: {valid_class})", c), s); }
+			match guarded(|| FieldDescriptor::from_arr_class(a).parse().ok().map(|d| o_of_ty(&d.0))) {
+				Ok(Some(OTy::Arr(..))) => {},
+				other => vio(r, format!("FieldDescriptor::from_arr_class(name).parse() = {:?}, expected an array type", other), s),
+			}
+		}
+		// FieldDescriptor::from_class
+		let c = unsafe { ClassNameSlice::from_inner_unchecked(&js) };
+		match guarded(|| FieldDescriptor::from_class(c)) {
+			Err(p) => vio(r, format!("FieldDescriptor::from_class panicked: {p}"), s),
+			Ok(d) => {
+				if valid_class {
+					let want = if valid_arr { o_field(s) } else { Some(OTy::Obj(s.to_vec())) };
+					let got = guarded(|| d.parse().ok().map(|x| o_of_ty(&x.0)));
+					if got != Ok(want.clone()) || want.is_none() { vio(r, format!("FieldDescriptor::from_class(valid class name).parse() = {:?}, expected {:?}", got, want), s); }
+				}
+				if st.emit_cases && s.len() <= 12 { r.case(stream, format!("CDescOf {} {}", gstr(s), gjstr(d.as_inner()))); }
+			}
+		}
+		// From<FieldDescriptor> for ReturnDescriptor
+		if mask & (1 << 7) != 0 {
+			let f = unsafe { FieldDescriptor::from_inner_unchecked(js.clone()) };
+			let got = guarded(|| ReturnDescriptor::from(f).parse().ok().map(|x| x.0.as_ref().map(o_of_ty)));
+			if got != Ok(o_field(s).map(Some)) { vio(r, format!("ReturnDescriptor::from(FieldDescriptor).parse() = {:?}, the field descriptor parses to {:?}", got, o_field(s)), s); }
+		}
+		// Display: the text itself; an error exactly when the string holds a surrogate code point
+		let want: Option<String> = s.iter().map(|&c| char::from_u32(c)).collect();
+		let mut first = true;
+		for &(k, kname) in KINDS.iter() {
+			match impl_display(k, &js) {
+				None => {},
+				Some(Err(p)) => vio(r, format!("Display of {kname} panicked: {p}"), s),
+				Some(Ok((a, b))) => {
+					if a != want || b != want { vio(r, format!("Display of {kname} / {kname}Slice gives {:?} / {:?}, expected {:?} (fmt::Error exactly on surrogates)", a, b, want), s); }
+					if first { c_disp = Some(a.is_some()); }
+					first = false;
+				}
+			}
+		}
+		// the rest of the generated API behaves as the wrapped string
+		let other = { let mut o = s.to_vec(); if o.len() % 2 == 0 { o.push('x' as u32); } else { o.pop(); } jstring(&o) };
+		for &(k, kname) in KINDS.iter() {
+			for oth in [&js, &other] {
+				match impl_newtype_api(k, &js, oth) {
+					Err(p) => vio(r, format!("{kname}: a generated trait impl panicked: {p}"), s),
+					Ok(bad) => if !bad.is_empty() { vio(r, format!("{kname}: generated impls that do not behave as the wrapped string: {:?}", bad), s); },
 				}
 			}
 		}
 	}
-	mask
+	if st.emit_cases {
+		// every piece is present unless the implementation panicked on it (reported above as a violation)
+		if let (Some(f), Some(rt), Some(m), Some(ar), Some(cv), Some(dp)) = (c_field, c_ret, c_meth, c_args, c_conv, c_disp) {
+			r.case(stream, format!("CAll {} {f} {rt} {m} {} {} {c_split} {c_simple} {} {ar} {cv} {}", gs(s), glist(c_printed.iter().map(|b| gbool(*b))),
+				glist(c_names.into_iter()), gres(out.dim.map(|d| d.to_string())), gbool(dp)));
+		}
+	}
+	out.mask = mask;
+	out
+}
+
+thread_local! { static CRUMB_BUF: std::cell::RefCell<String> = std::cell::RefCell::new(String::new()); }
+fn crumb_input(s: &[u32]) {
+	CRUMB_BUF.with(|b| {
+		let mut b = b.borrow_mut();
+		b.clear();
+		b.push_str("property C18\nwhat: the harness process died (stack overflow, abort or time limit) while this string was inside a descriptor parser, a name predicate, an inner-class helper or get_arguments_size\ninput (text): ");
+		b.push_str(&show(s));
+		b.push_str("\ninput (code points): ");
+		b.push_str(&gstr(s));
+		b.push('\n');
+		crumb(&b);
+	});
 }
 
 // ---------- generators ----------
@@ -271,6 +608,8 @@ fn gen_class_name(rng: &mut Rng) -> Vec<u32> {
 		" ", "\t", "\u{2003}", "  ", " x", "x ", "Größe", "日本", "Outer$Größe", "Outer$日本", "$\u{10400}", "A$ ", "ü$\u{2003}", "O$I$\u{fc}\u{65e5}\u{10400}"];
 	let mut v = vec![];
 	for i in 0..parts { if i > 0 { v.push('/' as u32); } v.extend(cps_str(*rng.pick(&pool[..]))); }
+	// now and then a lone surrogate (JavaString holds it; Display of the name types must answer fmt::Error)
+	if rng.chance(1, 12) { let i = rng.below(v.len() + 1); v.insert(i, *rng.pick(&[0xD800u32, 0xDBFF, 0xDC00, 0xDFFF][..])); }
 	v
 }
 fn gen_field(rng: &mut Rng) -> Vec<u32> {
@@ -288,12 +627,46 @@ fn gen_method(rng: &mut Rng) -> Vec<u32> {
 	v
 }
 fn mutate(rng: &mut Rng, s: &mut Vec<u32>) {
-	let mut alpha = cps_str(ALPHABET); alpha.extend(cps_str(ALPHABET2));
+	let mut alpha = cps_str(ALPHABET); alpha.extend(cps_str(ALPHABET2)); alpha.extend([0xD800, 0xDFFF, 0xFFFF, 0x10FFFF, 0]);
 	match rng.below(4) {
 		0 if !s.is_empty() => { let i = rng.below(s.len()); s.remove(i); }
 		1 => { let i = rng.below(s.len() + 1); s.insert(i, *rng.pick(&alpha)); }
 		2 if !s.is_empty() => { let i = rng.below(s.len()); s[i] = *rng.pick(&alpha); }
 		_ => { s.push(*rng.pick(&alpha)); }
+	}
+}
+
+/// a `Type` built directly: mostly well-formed, sometimes with an invalid or array-like class name or dimension 0
+fn gen_type_value(rng: &mut Rng) -> Type {
+	let name = |rng: &mut Rng| -> JavaString {
+		match rng.below(8) {
+			0 => jstring(&cps_str(*rng.pick(&["[I", "[La;", "[", "[[Ljava/lang/Object;", "[a"][..]))),
+			1 => jstring(&cps_str(*rng.pick(&["", "a//b", "/a", "a/", "a;b", "a.b", "a[b", ";"][..]))),
+			_ => jstring(&gen_class_name(rng)),
+		}
+	};
+	let dim = |rng: &mut Rng| -> u8 { match rng.below(6) { 0 => 0, 1 => 255, 2 => 254, 3 => rng.range(3, 253) as u8, _ => rng.range(1, 2) as u8 } };
+	let prim = |rng: &mut Rng| rng.below(8);
+	match rng.below(4) {
+		0 => [Type::B, Type::C, Type::D, Type::F, Type::I, Type::J, Type::S, Type::Z][prim(rng)].clone(),
+		1 => Type::Object(unsafe { ObjClassName::from_inner_unchecked(name(rng)) }),
+		2 => Type::Array(dim(rng), [ArrayType::B, ArrayType::C, ArrayType::D, ArrayType::F, ArrayType::I, ArrayType::J, ArrayType::S, ArrayType::Z][prim(rng)].clone()),
+		_ => Type::Array(dim(rng), ArrayType::Object(unsafe { ClassName::from_inner_unchecked(name(rng)) })),
+	}
+}
+/// what the checked constructors allow: binary class names, 1..255 dimensions
+fn wf_type(t: &Type) -> bool {
+	match t {
+		Type::Object(n) => o_name(2, &cps(n.as_inner())),
+		Type::Array(d, a) => *d >= 1 && match a { ArrayType::Object(n) => o_name(2, &cps(n.as_inner())), _ => true },
+		_ => true,
+	}
+}
+fn bracket_name(t: &Type) -> bool {
+	match t {
+		Type::Object(n) => n.as_inner().starts_with('['),
+		Type::Array(_, ArrayType::Object(n)) => n.as_inner().starts_with('['),
+		_ => false,
 	}
 }
 
@@ -315,91 +688,318 @@ fn for_all_strings(alpha: &[u32], len: usize, f: &mut dyn FnMut(&[u32])) {
 	}
 }
 
+/// accumulated answers of one exhaustive sweep (what the Coq side re-enumerates)
+struct SweepAcc { accepted: Vec<Vec<Vec<u32>>>, args: Vec<(Vec<u32>, u8)>, dims: Vec<(Vec<u32>, u8)>,
+	simple: Vec<(Vec<u32>, Vec<u32>)>, parent: Vec<(Vec<u32>, Vec<u32>)>, inner: Vec<(Vec<u32>, Vec<u32>)> }
+impl SweepAcc {
+	fn new() -> SweepAcc { SweepAcc { accepted: vec![vec![]; 11], args: vec![], dims: vec![], simple: vec![], parent: vec![], inner: vec![] } }
+	/// `s`: what is listed for the input (the whole string, or its variable part in a template sweep)
+	fn add(&mut self, s: &[u32], o: &Out, with_args: bool) {
+		for k in 0..11 { if o.mask & (1 << k) != 0 { self.accepted[k].push(s.to_vec()); } }
+		if with_args { if let Some(n) = o.args { self.args.push((s.to_vec(), n)); } }
+		if let Some(d) = o.dim { self.dims.push((s.to_vec(), d)); }
+		if let Some(x) = &o.simple { self.simple.push((s.to_vec(), x.clone())); }
+		if let Some((p, i)) = &o.split { self.parent.push((s.to_vec(), p.clone())); self.inner.push((s.to_vec(), i.clone())); }
+	}
+	/// the Coq cases: accepted sets of the 11 predicates/parsers and the value tables; `args_len` = None when get_arguments_size was not swept
+	fn cases(&self, pre: &[u32], suf: &[u32], alpha: &[u32], len: usize, with_args: bool) -> Vec<String> {
+		let head = format!("{} {} {} {len}", gstr(pre), gstr(suf), gstr(alpha));
+		let mut v = vec![];
+		for k in 0..11 { v.push(format!("CSweepT {k} {head} {}", glist(self.accepted[k].iter().map(|s| gstr(s))))); }
+		let nums = |l: &Vec<(Vec<u32>, u8)>| glist(l.iter().map(|(s, n)| gpair(gstr(s), n.to_string())));
+		let strs = |l: &Vec<(Vec<u32>, Vec<u32>)>| glist(l.iter().map(|(s, x)| gpair(gstr(s), gstr(x))));
+		if with_args { v.push(format!("CSweepN 0 {head} {}", nums(&self.args))); }
+		v.push(format!("CSweepN 1 {head} {}", nums(&self.dims)));
+		v.push(format!("CSweepS 0 {head} {}", strs(&self.simple)));
+		v.push(format!("CSweepS 1 {head} {}", strs(&self.parent)));
+		v.push(format!("CSweepS 2 {head} {}", strs(&self.inner)));
+		v
+	}
+}
+
+/// third sweep: every string `prefix ++ w ++ suffix`, w over ALPHABET3 up to a length — the special characters in every position
+/// class (alone, at the start, in the middle, at the end, next to each structural character) of every kind of input
+pub const ALPHABET3: &str = "\u{fc}\u{65e5}\u{10400} \t\u{2003}\u{d7ff}a/$;[L.<>()";
+pub const TEMPLATES: [(&str, &str); 24] = [("", ""), ("L", ";"), ("[L", ";"), ("(L", ";)V"), ("()L", ";"), ("(", ")V"), ("()", ""), ("(I", ")V"), ("(L", ";I)V"),
+	("a/", ""), ("", "/a"), ("a/", "/a"), ("a$", ""), ("", "$a"), ("a/b$", ""), ("$", ""), ("", "$"), ("<", ">"), ("<init", ""), ("[", ""), ("[[", "I"),
+	("La", ""), ("(D[J", ")V"), ("(", "")];
+
 pub fn run(ctx: &Ctx) -> anyhow::Result<Report> {
 	let mut r = Report::new("C18", "C18.Run");
 	let mut rng = Rng::new(ctx.seed);
+	let probe = ArgsProbe::new();
 	let alpha = cps_str(ALPHABET);
-	let oracle_len = if ctx.thorough { 7 } else { 5 };  // implementation + oracle sweep
+	let oracle_len = if ctx.thorough { 6 } else { 5 };  // implementation + oracle sweep (thorough: length 7 over a 9-letter sub-alphabet on top)
 	let model_len = if ctx.thorough { 5 } else { 4 };   // swept inside Coq as well
 	let oracle_len2 = if ctx.thorough { 5 } else { 4 };
-	r.rule = format!("exhaustive: every string over the 14-letter alphabet {ALPHABET:?} up to length {oracle_len} through the 3 descriptor parsers, 7 name predicates and the inner-class split on the implementation against an independent JVMS recogniser (lengths up to {model_len} also enumerated inside Coq by the model and compared as accepted-sets); a second exhaustive sweep over the 12-letter alphabet {ALPHABET2:?} (characters of 2, 3 and 4 UTF-8 bytes, space, TAB, EM SPACE, $ / L ; [ I) up to length {oracle_len2} (quick 4, thorough 5; all of it also enumerated inside Coq); plus grammar-generated and mutated long descriptors and class names (dimensions 250..257 in field, parameter and return position, multi-byte and white-space-only name segments, inner names with multi-byte characters). Every name string also goes through the three TryFrom impls of its newtype (must agree with is_valid and keep the string). A case is non-trivial when at least one parser/predicate accepts it; distinct by string.");
+	let len3 = if ctx.thorough { 3 } else { 2 };
+	r.rule = format!("exhaustive: every string over the 14-letter alphabet {ALPHABET:?} up to length {oracle_len} (thorough tier: also every string of length 7 over {ALPHABET_LEN7:?}) through the 3 descriptor parsers, 7 name predicates, the inner-class split/parent/name, get_simple_name, ArrClassName::dimension (and get_arguments_size, observed through the class writer, up to length {model_len}) on the implementation against an independent JVMS recogniser (lengths up to {model_len} also enumerated inside Coq by the model: accepted sets and value tables must coincide); a second exhaustive sweep over the 12-letter alphabet {ALPHABET2:?} (characters of 2, 3 and 4 UTF-8 bytes, space, TAB, EM SPACE, $ / L ; [ I) up to length {oracle_len2} (all of it also enumerated inside Coq); a third over {} templates prefix+w+suffix (field/method/return descriptor, class name, inner name, method name shapes) with w over the 19-letter alphabet {ALPHABET3:?} + a lone surrogate U+D800 up to length {len3}, every string also through the conversions, Display, the unchecked newtypes and the rest of the macro-generated API; plus grammar-generated and mutated long descriptors and class names (dimensions 250..257 in field, parameter and return position, 120..130 wide parameters around the 255-slot limit, multi-byte, surrogate and white-space-only name segments, inner names with multi-byte characters). Every name string also goes through the three TryFrom impls of its newtype (must agree with is_valid and keep the string). A case is non-trivial when at least one parser/predicate accepts it; distinct by string.", TEMPLATES.len());
 
 	// 1. sweeps
-	let mut accepted: Vec<Vec<Vec<u32>>> = vec![vec![]; 11];
+	let mut clock = std::time::Instant::now();
+	let mut lap = |r: &mut Report, what: &str| { r.notes.push(format!("harness phase {what}: {:.1} s", clock.elapsed().as_secs_f64())); clock = std::time::Instant::now(); };
+	let mut acc = SweepAcc::new();
 	for len in 0..=oracle_len {
 		let in_model = len <= model_len;
 		let mut count = 0u64;
 		for_all_strings(&alpha, len, &mut |s| {
 			count += 1;
-			let mut st = St { r: &mut r, emit_cases: false };
-			let mask = through(&mut st, s, "sweep");
-			r.eval_distinct(mask != 0);
-			if mask != 0 { r.count(&format!("sweep_accepted_len{len}")); }
-			if in_model { for k in 0..11 { if mask & (1 << k) != 0 { accepted[k].push(s.to_vec()); } } }
+			let mut st = St { r: &mut r, probe: &probe, emit_cases: false, args: in_model, full: false };
+			let o = through(&mut st, s, "sweep");
+			r.eval_distinct(o.mask != 0);
+			if o.mask != 0 { r.count(&format!("sweep_accepted_len{len}")); }
+			if in_model { acc.add(s, &o, true); }
 			// every accepted short string also becomes individual cases (results compared, not only acceptance)
-			if mask & 0b111_1000_0000 != 0 && len <= 3 { let mut st = St { r: &mut r, emit_cases: true }; through(&mut st, s, "sweep-accepted"); }
+			if o.mask & 0b111_1000_0000 != 0 && len <= 3 { let mut st = St { r: &mut r, probe: &probe, emit_cases: true, args: true, full: true }; through(&mut st, s, "sweep-accepted"); }
 		});
 		r.count_n("sweep_strings", count);
 	}
-	for k in 0..11 {
-		r.big_case("sweep", format!("CSweep {k} {} {model_len} {}", gstr(&alpha), glist(accepted[k].iter().map(|s| gstr(s)))));
+	if ctx.thorough {
+		// length 7 over the letters that matter for descriptors (14^7 strings would take half an hour)
+		let sub = cps_str(ALPHABET_LEN7);
+		let mut count = 0u64;
+		for_all_strings(&sub, 7, &mut |s| {
+			count += 1;
+			let mut st = St { r: &mut r, probe: &probe, emit_cases: false, args: false, full: false };
+			let o = through(&mut st, s, "sweep");
+			r.eval_distinct(o.mask != 0);
+			if o.mask != 0 { r.count("sweep_accepted_len7_subalphabet"); }
+		});
+		r.count_n("sweep_strings_len7_subalphabet", count);
 	}
+	for c in acc.cases(&[], &[], &alpha, model_len, true) { r.big_case("sweep", c); }
+	lap(&mut r, "sweep 1");
 	// 1b. the second alphabet: multi-byte characters, white space, $ / L ; [ I
 	let alpha2 = cps_str(ALPHABET2);
 	let model_len2 = oracle_len2;
-	let mut accepted2: Vec<Vec<Vec<u32>>> = vec![vec![]; 11];
+	let mut acc2 = SweepAcc::new();
 	for len in 0..=oracle_len2 {
-		let in_model = len <= model_len2;
 		let mut count = 0u64;
 		for_all_strings(&alpha2, len, &mut |s| {
 			count += 1;
-			let mut st = St { r: &mut r, emit_cases: false };
-			let mask = through(&mut st, s, "sweep2");
-			r.eval_distinct(mask != 0);
-			if mask != 0 { r.count(&format!("sweep2_accepted_len{len}")); }
-			if in_model { for k in 0..11 { if mask & (1 << k) != 0 { accepted2[k].push(s.to_vec()); } } }
+			let mut st = St { r: &mut r, probe: &probe, emit_cases: false, args: true, full: len <= 3 };
+			let o = through(&mut st, s, "sweep2");
+			r.eval_distinct(o.mask != 0);
+			if o.mask != 0 { r.count(&format!("sweep2_accepted_len{len}")); }
+			acc2.add(s, &o, true);
 			// results (not only acceptance) of every short string that splits or parses
-			if mask & 0b111_1000_0000 != 0 && len <= 3 { let mut st = St { r: &mut r, emit_cases: true }; through(&mut st, s, "sweep2-accepted"); }
+			if o.mask & 0b111_1000_0000 != 0 && len <= 3 { let mut st = St { r: &mut r, probe: &probe, emit_cases: true, args: true, full: true }; through(&mut st, s, "sweep2-accepted"); }
 		});
 		r.count_n("sweep2_strings", count);
 	}
-	for k in 0..11 {
-		r.big_case("sweep2", format!("CSweep {k} {} {model_len2} {}", gstr(&alpha2), glist(accepted2[k].iter().map(|s| gstr(s)))));
+	for c in acc2.cases(&[], &[], &alpha2, model_len2, true) { r.big_case("sweep2", c); }
+	lap(&mut r, "sweep 2");
+	// 1c. templates x the third alphabet
+	let mut alpha3 = cps_str(ALPHABET3);
+	alpha3.push(0xD800); // a lone surrogate: a JavaString can hold it, Display cannot print it
+	for (pre, suf) in TEMPLATES {
+		let (pre, suf) = (cps_str(pre), cps_str(suf));
+		let mut acc3 = SweepAcc::new();
+		let mut count = 0u64;
+		for len in 0..=len3 {
+			for_all_strings(&alpha3, len, &mut |w| {
+				count += 1;
+				let mut s = pre.clone(); s.extend(w); s.extend(&suf);
+				let mut st = St { r: &mut r, probe: &probe, emit_cases: false, args: true, full: true };
+				let o = through(&mut st, &s, "sweep3");
+				r.eval(&gstr(&s), o.mask != 0);
+				if o.mask != 0 { r.count("sweep3_accepted"); }
+				acc3.add(w, &o, true);
+			});
+		}
+		r.count_n("sweep3_strings", count);
+		for c in acc3.cases(&pre, &suf, &alpha3, len3, true) { r.case("sweep3", c); }
 	}
 	r.exhaustive = true;
+	lap(&mut r, "sweep 3 (templates)");
 
 	// 2. generated valid descriptors and mutations
 	let n = if ctx.thorough { 4000 } else { 600 };
 	for i in 0..n {
 		let mut s = match i % 3 { 0 => gen_field(&mut rng), 1 => gen_method(&mut rng), _ => gen_class_name(&mut rng) };
 		let stream = match i % 3 { 0 => "gen-field", 1 => "gen-method", _ => "gen-name" };
-		let mut st = St { r: &mut r, emit_cases: true };
-		let mask = through(&mut st, &s, stream);
-		r.eval(&gstr(&s), mask != 0);
+		let mut st = St { r: &mut r, probe: &probe, emit_cases: true, args: true, full: true };
+		let o = through(&mut st, &s, stream);
+		r.eval(&gstr(&s), o.mask != 0);
+		if i % 3 == 1 && o.mask & (1 << 9) != 0 { args_ignores_return(&mut r, &probe, &mut rng, &s, o.args); }
 		for _ in 0..rng.range(1, 2) { mutate(&mut rng, &mut s); }
-		let mut st = St { r: &mut r, emit_cases: true };
-		let mask = through(&mut st, &s, "mutated");
-		r.eval(&gstr(&s), mask != 0);
-		if mask == 0 { r.count("mutated_rejected_by_all"); }
+		let mut st = St { r: &mut r, probe: &probe, emit_cases: true, args: true, full: true };
+		let o = through(&mut st, &s, "mutated");
+		r.eval(&gstr(&s), o.mask != 0);
+		if o.mask == 0 { r.count("mutated_rejected_by_all"); }
 	}
+	lap(&mut r, "generated and mutated");
 	// 3. boundaries: dimensions 254..257, inside field, method and array class names
-	for d in [1usize, 2, 254, 255, 256, 257, 300] {
-		for tail in ["I", "Ljava/lang/Object;", "La;", "V", "", "L;", "[", "La/;"] {
+	for d in [1usize, 2, 254, 255, 256, 257, 300, 512] {
+		for tail in ["I", "Ljava/lang/Object;", "La;", "V", "", "L;", "[", "La/;", "D", "J"] {
 			let mut s = vec!['[' as u32; d]; s.extend(cps_str(tail));
-			let mut st = St { r: &mut r, emit_cases: true };
-			let m = through(&mut st, &s, "boundary");
+			let mut st = St { r: &mut r, probe: &probe, emit_cases: true, args: true, full: true };
+			let m = through(&mut st, &s, "boundary").mask;
 			r.eval(&gstr(&s), m != 0);
 			let mut ms = vec!['(' as u32]; ms.extend(&s); ms.extend(cps_str(")V"));
-			let mut st = St { r: &mut r, emit_cases: true };
-			let m = through(&mut st, &ms, "boundary");
+			let mut st = St { r: &mut r, probe: &probe, emit_cases: true, args: true, full: true };
+			let m = through(&mut st, &ms, "boundary").mask;
 			r.eval(&gstr(&ms), m != 0);
 			// the same in return position, alone and behind parameters
 			for head in ["()", "(I[J)"] {
 				let mut rs = cps_str(head); rs.extend(&s);
-				let mut st = St { r: &mut r, emit_cases: true };
-				let m = through(&mut st, &rs, "boundary-return");
+				let mut st = St { r: &mut r, probe: &probe, emit_cases: true, args: true, full: true };
+				let m = through(&mut st, &rs, "boundary-return").mask;
 				r.eval(&gstr(&rs), m != 0);
 			}
+		}
+	}
+	// 3b. the 255-slot limit of get_arguments_size: k wide parameters (2 slots each) and j narrow ones, 1 + 2k + j around 255 / 256,
+	// the narrow ones as primitives, arrays of wide types and objects; also malformed tails after the limit is crossed
+	for wide in [0usize, 1, 120, 126, 127, 128] {
+		for narrow in [0usize, 1, 2, 3, 253, 254, 255, 256] {
+			let total = 1 + 2 * wide + narrow;
+			if !(total <= 6 || (250..=260).contains(&total)) { continue; }
+			for (nk, narrow_text) in ["I", "[D", "Ljava/lang/Object;", "[[J"].iter().enumerate() {
+				for (wk, wide_text) in ["D", "J"].iter().enumerate() {
+					for tail in [")V", ")D", ")", "", ")[", "L"] {
+						if (nk + wk) % 2 == 1 && tail != ")V" { continue; }
+						let mut s = vec!['(' as u32];
+						for _ in 0..wide { s.extend(cps_str(wide_text)); }
+						for _ in 0..narrow { s.extend(cps_str(narrow_text)); }
+						s.extend(cps_str(tail));
+						let mut st = St { r: &mut r, probe: &probe, emit_cases: false, args: true, full: false };
+						let o = through(&mut st, &s, "args-boundary");
+						r.case("args-boundary", format!("CArgs {} {}", gs(&s), gres(o.args.map(|d| d.to_string()))));
+						if tail == ")V" { r.case("args-boundary", format!("CMethod {} {}", gs(&s), gres(impl_method(&jstring(&s)).ok().flatten().as_ref().map(g_method)))); }
+						r.eval(&gstr(&s), o.mask != 0 || o.args.is_some());
+						r.count(if o.args.is_some() { "args_boundary_ok" } else { "args_boundary_err" });
+					}
+				}
+			}
+		}
+	}
+	// 3c0. from_inner_class exhaustively on all pairs of strings up to length 2 over the second alphabet (oracle only: the result is
+	// parent$inner; of two valid object class names it is one; it splits back when the inner name has no `$` and no `/`)
+	{
+		let mut shorts: Vec<Vec<u32>> = vec![];
+		for len in 0..=2 { for_all_strings(&alpha2, len, &mut |s| shorts.push(s.to_vec())); }
+		let valid: Vec<bool> = shorts.iter().map(|s| o_name(2, s)).collect();
+		for (pi, p) in shorts.iter().enumerate() {
+			crumb_input(p);
+			for (ii, i) in shorts.iter().enumerate() {
+				let (pj, ij) = (jstring(p), jstring(i));
+				let joined = guarded(|| {
+					let parent = unsafe { ObjClassName::from_inner_unchecked(pj) };
+					let inner = unsafe { ObjClassNameSlice::from_inner_unchecked(&ij) };
+					cps(ObjClassName::from_inner_class(parent, inner).as_inner())
+				});
+				let mut want = p.clone(); want.push('$' as u32); want.extend(i);
+				r.eval_distinct(valid[pi] && valid[ii]);
+				if joined.as_ref() != Ok(&want) { vio(&mut r, format!("from_inner_class({:?}, {:?}) = {:?}, expected parent$inner", show(p), show(i), joined), &want); continue; }
+				if valid[pi] && valid[ii] {
+					let jj = jstring(&want);
+					if impl_name(2, &jj) != Ok(true) { vio(&mut r, format!("from_inner_class of the valid object class names {:?} and {:?} is not a valid ObjClassName", show(p), show(i)), &want); }
+					if !i.contains(&('$' as u32)) && !i.contains(&('/' as u32)) && impl_split(&jj) != Ok(Some((p.clone(), i.clone()))) {
+						vio(&mut r, format!("split(from_inner_class({:?}, {:?})) does not give the two names back", show(p), show(i)), &want);
+					}
+				}
+			}
+		}
+		r.count_n("join_pairs_exhaustive", (shorts.len() * shorts.len()) as u64);
+	}
+	// 3c. from_inner_class on generated pairs: the result is parent$inner, a valid object class name when both are, and splits back
+	for _ in 0..(if ctx.thorough { 1500 } else { 300 }) {
+		let p = gen_class_name(&mut rng);
+		let mut i = gen_class_name(&mut rng);
+		if rng.chance(1, 2) { i.retain(|&c| c != '/' as u32); }
+		if rng.chance(1, 3) { i.retain(|&c| c != '$' as u32); }
+		crumb_input(&p);
+		let (pj, ij) = (jstring(&p), jstring(&i));
+		let joined = guarded(|| {
+			let parent = unsafe { ObjClassName::from_inner_unchecked(pj) };
+			let inner = unsafe { ObjClassNameSlice::from_inner_unchecked(&ij) };
+			cps(ObjClassName::from_inner_class(parent, inner).as_inner())
+		});
+		let mut want = p.clone(); want.push('$' as u32); want.extend(&i);
+		let both_valid = o_name(2, &p) && o_name(2, &i);
+		r.eval(&format!("join {} {}", gstr(&p), gstr(&i)), both_valid);
+		match joined {
+			Err(e) => vio(&mut r, format!("ObjClassName::from_inner_class panicked: {e}"), &want),
+			Ok(j) => {
+				if j != want { vio(&mut r, format!("from_inner_class({:?}, {:?}) = {:?}, expected parent$inner", show(&p), show(&i), show(&j)), &want); }
+				let jj = jstring(&j);
+				if both_valid && impl_name(2, &jj) != Ok(true) { vio(&mut r, format!("from_inner_class of the valid object class names {:?} and {:?} is not a valid ObjClassName", show(&p), show(&i)), &j); }
+				if both_valid && !i.contains(&('$' as u32)) && !i.contains(&('/' as u32)) && impl_split(&jj) != Ok(Some((p.clone(), i.clone()))) {
+					vio(&mut r, format!("split(from_inner_class({:?}, {:?})) does not give the two names back", show(&p), show(&i)), &j);
+				}
+				r.case("join", format!("CJoin {} {} {}", gstr(&p), gstr(&i), gstr(&j)));
+				r.count(if both_valid { "join_both_valid" } else { "join_some_invalid" });
+			}
+		}
+	}
+	lap(&mut r, "boundaries and join");
+	// 3d. the writers on type values built directly (names through the unchecked constructors, any u8 dimension)
+	for i in 0..(if ctx.thorough { 3000 } else { 600 }) {
+		if i % 3 != 0 {
+			let t = gen_type_value(&mut rng);
+			crumb_input(&cps_str(&format!("{:?}", t)));
+			let t2 = t.clone();
+			let got = guarded(move || cps(ParsedFieldDescriptor(t2).write().as_inner())).ok();
+			let wf = wf_type(&t);
+			r.eval(&format!("write {}", g_ty(&t)), wf);
+			r.count(if wf { "write_value_wf" } else if got.is_some() { "write_value_illformed_printed" } else { "write_value_illformed_panic" });
+			let here = format!("type value {:?}", t);
+			match &got {
+				None => if !bracket_name(&t) { r.violation(format!("ParsedFieldDescriptor::write panicked on {here}, whose class name does not start with `[`"), format!("property C18\nwhat: write() panicked\ninput: {here}\n")); },
+				Some(w) => {
+					let back = impl_field(&jstring(w));
+					let same = matches!(&back, Ok(Some(p)) if p.0 == t);
+					if same != wf { r.violation(format!("parse(write(t)) == t is {same} for the {} {here} (written text {:?})", if wf { "well-formed" } else { "ill-formed" }, show(w)),
+						format!("property C18\nwhat: round trip of a type value\ninput: {here}\nwritten: {}\n", show(w))); }
+				}
+			}
+			r.case("write-value", format!("CWriteF {} {}", g_ty(&t), gres(got.map(|w| gs(&w)))));
+		} else {
+			let m = ParsedMethodDescriptor { parameter_descriptors: (0..rng.below(4)).map(|_| gen_type_value(&mut rng)).collect(),
+				return_descriptor: if rng.chance(1, 3) { None } else { Some(gen_type_value(&mut rng)) } };
+			crumb_input(&cps_str(&format!("{:?}", m)));
+			let m2 = m.clone();
+			let got = guarded(move || cps(m2.write().as_inner())).ok();
+			let wf = m.parameter_descriptors.iter().all(wf_type) && m.return_descriptor.as_ref().map_or(true, wf_type);
+			let any_bracket = m.parameter_descriptors.iter().any(bracket_name) || m.return_descriptor.as_ref().map_or(false, bracket_name);
+			r.eval(&format!("write {}", g_method(&m)), wf);
+			r.count(if wf { "write_method_wf" } else { "write_method_illformed" });
+			let here = format!("method descriptor value {:?}", m);
+			match &got {
+				None => if !any_bracket { r.violation(format!("ParsedMethodDescriptor::write panicked on {here}, none of whose class names starts with `[`"), format!("property C18\nwhat: write() panicked\ninput: {here}\n")); },
+				Some(w) => {
+					let back = impl_method(&jstring(w));
+					let same = matches!(&back, Ok(Some(p)) if *p == m);
+					if same != wf { r.violation(format!("parse(write(m)) == m is {same} for the {} {here} (written text {:?})", if wf { "well-formed" } else { "ill-formed" }, show(w)),
+						format!("property C18\nwhat: round trip of a method descriptor value\ninput: {here}\nwritten: {}\n", show(w))); }
+				}
+			}
+			r.case("write-value", format!("CWriteM {} {}", g_method(&m), gres(got.map(|w| gs(&w)))));
+		}
+	}
+	lap(&mut r, "write values");
+	// 3e. the constants built with the unchecked constructors are what their SAFETY comments say, and the *NameAndDesc::with_class
+	// helpers only move their parts
+	{
+		use duke::tree::field::FieldNameAndDesc;
+		use duke::tree::method::MethodNameAndDesc;
+		for (what, got, want, kind) in [("MethodName::INIT", cps(MethodName::INIT.as_inner()), "<init>", 4usize), ("MethodName::CLINIT", cps(MethodName::CLINIT.as_inner()), "<clinit>", 4),
+			("ObjClassName::JAVA_LANG_OBJECT", cps(ObjClassName::JAVA_LANG_OBJECT.as_inner()), "java/lang/Object", 2)] {
+			r.eval(&format!("const {what}"), true);
+			if got != cps_str(want) || impl_name(kind, &jstring(&got)) != Ok(true) { vio(&mut r, format!("the constant {what} is {:?}: expected the valid name {want:?}", show(&got)), &got); }
+			let mut st = St { r: &mut r, probe: &probe, emit_cases: true, args: true, full: true };
+			through(&mut st, &got, "constants");
+		}
+		let (c, n, d) = (jstring(&cps_str("a/B")), jstring(&cps_str("f")), jstring(&cps_str("(I)V")));
+		let fr = FieldNameAndDesc { name: unsafe { FieldName::from_inner_unchecked(n.clone()) }, desc: unsafe { FieldDescriptor::from_inner_unchecked(jstring(&cps_str("I"))) } }
+			.with_class(unsafe { ObjClassName::from_inner_unchecked(c.clone()) });
+		let mnd = MethodNameAndDesc { name: unsafe { MethodName::from_inner_unchecked(n.clone()) }, desc: unsafe { MethodDescriptor::from_inner_unchecked(d.clone()) } };
+		let mr = mnd.clone().with_class(unsafe { ClassName::from_inner_unchecked(c.clone()) });
+		let mo = mnd.with_class_obj(unsafe { ObjClassName::from_inner_unchecked(c.clone()) });
+		if fr.class.as_inner() != &*c || fr.name.as_inner() != &*n || fr.desc.as_inner() != "I" || mr.class.as_inner() != &*c || mr.name.as_inner() != &*n || mr.desc.as_inner() != &*d
+			|| mo.class.as_inner() != &*c || mo.name.as_inner() != &*n || mo.desc.as_inner() != &*d {
+			vio(&mut r, "FieldNameAndDesc::with_class / MethodNameAndDesc::with_class(_obj) do not keep class, name and descriptor".into(), &cps(&c));
 		}
 	}
 	// 4. printing of generated type values (parse(write(t)) == t on the implementation)
@@ -410,7 +1010,35 @@ pub fn run(ctx: &Ctx) -> anyhow::Result<Report> {
 			if back != Ok(Some(p.clone())) { vio(&mut r, "parse(write(t)) differs from t".into(), &s); }
 		}
 	}
+	// the template-sweep cases are the heavy ones: spread them evenly over the shards, and keep the shards small
+	let (heavy, mut light): (Vec<String>, Vec<String>) = std::mem::take(&mut r.cases).into_iter().partition(|c| c.starts_with("CSweep"));
+	let step = light.len() / (heavy.len() + 1) + 1;
+	for (k, h) in heavy.into_iter().enumerate() { let at = ((k + 1) * step).min(light.len()); light.insert(at, h); }
+	r.cases = light;
+	r.shard_size = 350;
 	Ok(r)
+}
+
+/// "Does not look at the return descriptor": on a valid method descriptor, replacing what follows the closing `)` by anything
+/// (another return type, garbage, nothing) leaves get_arguments_size unchanged
+fn args_ignores_return(r: &mut Report, probe: &ArgsProbe, rng: &mut Rng, s: &[u32], base: Option<u8>) {
+	// the `)` that closes the parameter list is the first one (class names cannot contain `)`... they can: only `.;[/` are excluded),
+	// so take the parameter part from the oracle's own parse: re-print prefix by scanning field types
+	let mut rest = &s[1..];
+	let mut consumed = 1;
+	while rest.first() != Some(&(')' as u32)) {
+		match o_field_type(rest) { Some((_, r2)) => { consumed += rest.len() - r2.len(); rest = r2; }, None => return }
+	}
+	let head = &s[..consumed + 1];
+	for tail in ["V", "", "D", "J", "[[[", "L", ")", "(", "\u{10400}"] {
+		let mut v = head.to_vec(); v.extend(cps_str(tail));
+		if rng.chance(1, 2) { continue; }
+		crumb_input(&v);
+		match probe.args_size(&jstring(&v)) {
+			Ok(got) if got == base => {},
+			other => vio(r, format!("get_arguments_size = {:?} but {:?} on the same parameters with the return part {:?}: it must not look at the return descriptor", other, base, tail), &v),
+		}
+	}
 }
 
 fn main() -> anyhow::Result<()> { fbh::main_with(run) }
